@@ -173,7 +173,7 @@ func checkC12(p *Prog, r *Report) {
 		r.unresolved("E9.archive-writer-reader", "cache.dirCache.retrieveCompressed")
 	} else {
 		n, bad := 0, 0
-		eachInstr(rcz, false, func(_ *ssa.Function, i ssa.Instruction) {
+		eachInstrS(rcz, func(_ *ssa.Function, i ssa.Instruction) {
 			c, ok := i.(*ssa.Call)
 			if !ok || !isCallTo(c, "os.Symlink") {
 				return
@@ -199,6 +199,16 @@ func checkC12(p *Prog, r *Report) {
 				return
 			}
 			// from the case entry, can control leave without Symlink and without returning an error?
+			if g := c.Parent(); g != rcz {
+				// the per-entry switch lives in a private helper: leaving means returning nil
+				for _, ret := range returnsOf(g) {
+					last := unspill(ret.Results[len(ret.Results)-1])
+					if isNilConst(last) && entry.Instrs[0] != ssa.Instruction(c) && existsPath(g, entry.Instrs[0], ret, func(j ssa.Instruction) bool { return j == ssa.Instruction(c) }) {
+						bad++
+					}
+				}
+				return
+			}
 			for _, l := range loopBlocksOf(rcz, entry) {
 				if len(l.Instrs) > 0 && existsPath(rcz, entry.Instrs[0], l.Instrs[0], func(j ssa.Instruction) bool { return j == ssa.Instruction(c) }) && entry.Instrs[0] != ssa.Instruction(c) {
 					bad++
@@ -373,16 +383,48 @@ func checkC12(p *Prog, r *Report) {
 	rule = "E9.link-both-ways"
 	{
 		sLink := len(callsIn(a.storeFile, false, "fs.RecursiveLink"))
-		rLink := len(callsIn(a.retrieveFiles, false, "fs.RecursiveLink"))
+		var rLinks []ssa.Instruction
+		eachInstrS(a.retrieveFiles, func(_ *ssa.Function, i ssa.Instruction) {
+			if isCallTo(i, "fs.RecursiveLink") {
+				rLinks = append(rLinks, i)
+			}
+		})
+		rLink := len(rLinks)
 		r.check(sLink > 0 && rLink > 0, rule, "store and retrieve use fs.RecursiveLink", p.pos(a.storeFile.Pos()), fnName(a.storeFile), "the same tree primitive is used in both directions", "store and retrieve of the uncompressed cache no longer use the same tree-copy primitive (store: "+itoa(sLink)+", retrieve: "+itoa(rLink)+" RecursiveLink calls): kinds one side preserves (symlinks, directories) the other may not")
 		// and retrieve checks its error
-		for _, ci := range callsIn(a.retrieveFiles, false, "fs.RecursiveLink") {
+		for _, ci := range rLinks {
 			c := ci.(*ssa.Call)
 			k := false
-			for _, rc := range returnCases(a.retrieveFiles, 0) {
-				if known, isNil := errKnown(rc.Facts, []ssa.Value{c}); known && !isNil {
-					if b, isC := constBool(rc.Vals[0]); isC && !b {
-						k = true
+			missOn := func(errv ssa.Value) bool {
+				for _, rc := range returnCases(a.retrieveFiles, 0) {
+					if known, isNil := errKnown(rc.Facts, []ssa.Value{errv}); known && !isNil {
+						if b, isC := constBool(rc.Vals[0]); isC && !b {
+							return true
+						}
+					}
+				}
+				return false
+			}
+			if g := c.Parent(); g == a.retrieveFiles {
+				k = missOn(c)
+			} else if nres := g.Signature.Results().Len(); nres > 0 {
+				// the loop over the outputs lives in a private helper: the link error is what the helper returns, and the
+				// caller turns the helper's error into a miss
+				passes := false
+				for _, rc := range returnCases(g, nres-1) {
+					if known, isNil := errKnown(rc.Facts, []ssa.Value{c}); known && !isNil && !isNilConst(rc.Vals[nres-1]) {
+						passes = true
+					}
+				}
+				if passes {
+					for _, hc := range callsInFn(a.retrieveFiles, g) {
+						if hcall, ok := hc.(*ssa.Call); ok {
+							for _, e := range resultsOf(hcall, nres-1) {
+								if missOn(e) {
+									k = true
+								}
+							}
+						}
 					}
 				}
 			}
@@ -408,8 +450,8 @@ func (p *Prog) archiveAgreement(r *Report, a *dcAnchors) {
 	var cb *ssa.Function
 	for _, ci := range callsIn(a.storeCompressed2, false, "fs.Walk", "fs.WalkMode") {
 		for _, arg := range callCommon(ci).Args {
-			if mc, ok := arg.(*ssa.MakeClosure); ok {
-				cb = mc.Fn.(*ssa.Function)
+			if f := closureOfArg(arg); f != nil {
+				cb = f
 			}
 		}
 	}
@@ -431,7 +473,7 @@ func (p *Prog) archiveAgreement(r *Report, a *dcAnchors) {
 	r.check(!skip, rule, "every walked entry gets a tar header", p.pos(cb.Pos()), fnName(cb), "every nil return of the store walk callback passes tw.WriteHeader", "the store walk can skip an entry without writing its header (e.g. directories): the reader relies on the header of each entry to clear what is in the way and to recreate empty directories, so a restore over an existing tree keeps stale files")
 	// regular content copied: some io.Copy(tw, f) guarded by Typeflag tests only
 	copied := false
-	eachInstr(cb, false, func(_ *ssa.Function, i ssa.Instruction) {
+	eachInstrS(cb, func(_ *ssa.Function, i ssa.Instruction) {
 		if c, ok := i.(*ssa.Call); ok && isCallTo(c, "io.Copy") {
 			copied = true
 			// its error must be returned
@@ -458,7 +500,7 @@ func (p *Prog) archiveAgreement(r *Report, a *dcAnchors) {
 		return
 	}
 	n := 0
-	eachInstr(rc, false, func(_ *ssa.Function, i ssa.Instruction) {
+	eachInstrS(rc, func(_ *ssa.Function, i ssa.Instruction) {
 		c, ok := i.(*ssa.Call)
 		if !ok || !isCallTo(c, "os.MkdirAll", "os.Symlink", "os.OpenFile", "os.Create") {
 			return
@@ -478,7 +520,7 @@ func (p *Prog) archiveAgreement(r *Report, a *dcAnchors) {
 	// reader has a case for each non-regular kind the writer distinguishes
 	kinds := func(fn *ssa.Function) map[int64]bool {
 		out := map[int64]bool{}
-		eachInstr(fn, false, func(_ *ssa.Function, i ssa.Instruction) {
+		eachInstrS(fn, func(_ *ssa.Function, i ssa.Instruction) {
 			if bo, ok := i.(*ssa.BinOp); ok && (bo.Op == token.EQL || bo.Op == token.NEQ) {
 				if fieldKeyOfLoad(bo.X) == "archive/tar.Header.Typeflag" {
 					if c, ok := constInt(bo.Y); ok {
@@ -574,7 +616,7 @@ func checkC14(p *Prog, r *Report) {
 	{
 		rf := a.retrieveFiles
 		n := 0
-		eachInstr(rf, false, func(_ *ssa.Function, i ssa.Instruction) {
+		eachInstrS(rf, func(_ *ssa.Function, i ssa.Instruction) {
 			if isCallTo(i, "fs.RecursiveLink") || callsFn(i, a.retrieveCompressed) {
 				n++
 				r.check(dominatedByCall(i, a.markDir) != nil, rule, "retrieveFiles marks the entry before reading it", p.pos(i.Pos()), fnName(rf), "markDir dominates the link/unpack", "an entry is read out of the cache without having been marked: the cleaner may evict it (or part of it) while it is being restored")
